@@ -216,12 +216,19 @@ type queryMaker interface {
 	NewRangeQuery(q storage.Queryable, opts *promql.QueryOpts, qs string, start, end time.Time, interval time.Duration) (promql.Query, error)
 }
 
+// maxSamplesOverride, when non-zero, is the MaxSamples of every engine built afterwards (a per-query limit)
+var maxSamplesOverride int
+
 func promOpts(cfg EngineCfg) promql.EngineOpts {
 	to := cfg.Timeout
 	if to == 0 {
 		to = 2 * time.Minute
 	}
-	return promql.EngineOpts{Timeout: to, MaxSamples: 1e9, LookbackDelta: cfg.Lookback, EnableAtModifier: true, EnableNegativeOffset: true,
+	ms := int(1e9)
+	if maxSamplesOverride > 0 {
+		ms = maxSamplesOverride
+	}
+	return promql.EngineOpts{Timeout: to, MaxSamples: ms, LookbackDelta: cfg.Lookback, EnableAtModifier: true, EnableNegativeOffset: true,
 		NoStepSubqueryIntervalFn: func(int64) int64 { return 60_000 }}
 }
 
